@@ -54,7 +54,7 @@ class C03(pw.P21Check):
     # ------------------------------------------------------------ generator
     def gen(self, seed, i, tier):
         r = core.rng(seed, "C03", i)
-        nbase = 60 if tier == "quick" else 1500
+        nbase = 330 if tier == "quick" else 3000
         plan = self.base_plan(seed, r.randrange(nbase))
         plan["kind"] = KINDS[i % len(KINDS)]
         plan["pos"] = {"inst": r.randint(0, 10 ** 6), "part": r.randint(0, 10 ** 6), "slot": r.randint(0, 10 ** 6), "elem": r.randint(0, 10 ** 6),
